@@ -2,10 +2,10 @@
   C10 helper lemmas: all services of the handler against `svcsOkAux`.
 -/
 import Upnp.Lemmas.C10Judge
+set_option linter.unusedSectionVars false
 namespace Upnp.C10
 open Upnp PyDict Upnp.C09
-
-def declsOf (s : Svc) : List Decl := s.vars.map (·.decl)
+variable [FloatOracle]
 
 def evDrop (p : Svc × Svc) : List (List Str) := p.2.events.drop p.1.events.length
 
@@ -66,19 +66,23 @@ end Upnp.C10
 
 namespace Upnp.C10
 open Upnp PyDict Upnp.C09
+variable [FloatOracle]
+
+theorem setUpnpValue_blank (v : Var) (text : Str) (tick : Nat) : Var.blank (setUpnpValue v text tick).1 = Var.blank v :=
+  blank_eq ⟨setUpnpValue_decl v text tick, (setUpnpValue_row v text tick).1, (setUpnpValue_row v text tick).2⟩
 
 theorem updateVar_decls (vars : List Var) (n text : Str) (tick : Nat) :
-    (updateVar vars n text tick).1.map (·.decl) = vars.map (·.decl) := by
+    (updateVar vars n text tick).1.map Var.blank = vars.map Var.blank := by
   induction vars with
   | nil => rfl
   | cons v r ih =>
     simp only [updateVar]
     split
-    · simp [setUpnpValue_decl]
+    · simp [setUpnpValue_blank]
     · simp [ih]
 
 theorem applyChanges_decls (names : List Str) (tick : Nat) (ch : List (Str × Str)) (vars : List Var) (acc : List Str) :
-    (applyChanges names tick ch vars acc).1.map (·.decl) = vars.map (·.decl) := by
+    (applyChanges names tick ch vars acc).1.map Var.blank = vars.map Var.blank := by
   induction ch generalizing vars acc with
   | nil => rfl
   | cons p r ih =>
@@ -91,6 +95,69 @@ theorem applyChanges_decls (names : List Str) (tick : Nat) (ch : List (Str × St
 theorem notifyChanged_decls (s : Svc) (ch : PyDict Str Str) (tick : Nat) :
     declsOf (notifyChanged s ch tick) = declsOf s := by
   simp [declsOf, notifyChanged, applyChanges_decls]
+
+/-- no exception escapes the loop (C08's totality of the coercers): the loop as coded is the total loop -/
+theorem applyChangesE_eq (names : List Str) (tick : Nat) (ch : List (Str × Str)) (vars : List Var) (acc : List Str) :
+    applyChangesE names tick ch vars acc =
+      ((applyChanges names tick ch vars acc).1, (applyChanges names tick ch vars acc).2, none) := by
+  induction ch generalizing vars acc with
+  | nil => rfl
+  | cons p r ih =>
+    obtain ⟨tag, text⟩ := p
+    simp only [applyChangesE, applyChanges]
+    cases resolveName names tag with
+    | none => exact ih _ _
+    | some n =>
+      have : ((findVar vars n).bind fun v => raisesVar v text) = none := by
+        cases findVar vars n with
+        | none => rfl
+        | some v => exact raisesVar_none v text
+      simp only [this]
+      exact ih _ _
+
+theorem notifyChangedE_eq (s : Svc) (ch : PyDict Str Str) (tick : Nat) :
+    notifyChangedE s ch tick = (notifyChanged s ch tick, none) := by
+  simp [notifyChangedE, notifyChanged, applyChangesE_eq]
+
+/-- `handle_notify` with the early exit of the loop removed (it cannot be taken) -/
+theorem handleNotify_eq (h : Handler) (n : Notify) (tick : Nat) :
+    handleNotify h n tick =
+      match runLadder n.hdrs Gen.C10Notify.notifyLadder with
+      | some r => (h, r)
+      | none =>
+        match n.hdrs.sid with
+        | none => (h, .keyError)
+        | some sid =>
+          match get? h.rt sid with
+          | none =>
+            ({ h with backlog := set h.backlog sid ((get? h.backlog sid).getD [] ++ [n]) },
+             .status Gen.C10Notify.backlogStatus)
+          | some i =>
+            if n.malformed then (h, .parseError)
+            else ({ h with svcs := modifyAt h.svcs i fun s => notifyChanged s (changesOf n.body) tick },
+                  .status Gen.C10Notify.doneStatus) := by
+  unfold handleNotify
+  cases runLadder n.hdrs Gen.C10Notify.notifyLadder with
+  | some r => rfl
+  | none =>
+    cases n.hdrs.sid with
+    | none => rfl
+    | some sid =>
+      simp only
+      cases get? h.rt sid with
+      | none => rfl
+      | some i =>
+        simp only
+        by_cases hm : n.malformed = true
+        · simp [hm]
+        · have : (h.svcs[i]?.bind fun s => (notifyChangedE s (changesOf n.body) tick).2) = none := by
+            cases h.svcs[i]? with
+            | none => rfl
+            | some s => simp [notifyChangedE_eq]
+          simp [hm, this]
+
+theorem declsWF_blank (vars : List Var) : declsWF (vars.map Var.blank) ↔ declsWF vars := by
+  simp [declsWF, Var.blank, List.map_map, Function.comp_def]
 
 /-- exactly one more callback, whatever the property set -/
 theorem notifyChanged_events (s : Svc) (ch : PyDict Str Str) (tick : Nat) :
